@@ -20,7 +20,7 @@ CLAIM = dict(
          "correctness of accepted streams and exact total_in are not decided.",
     note="Trusted: rustc MIR + const evaluator; oracles/rfc1951.py (written from the RFC text); the rejection table in "
          "rules/decoders.py (message -> atom patterns), confirmed by reading both the RFCs and the code.",
-    technique="control-dependence atom matching over rustc MIR + exhaustive constant-table comparison with RFC 1951",
+    technique="control-dependence atom matching and linear-normal-form comparison of sibling bounds tests over rustc MIR + exhaustive constant-table comparison with RFC 1951",
 )
 
 
